@@ -11,6 +11,7 @@ CONSTANTS
   DevKillLeaksEaBlock = FALSE
   DevMkdirExistsLeak = FALSE
   DevSymlinkExistsLeak = FALSE
+  DevMkdirNoEmlink = FALSE
   NameSet = {1, 2, 3}
   MaxDirs = 3
   TotalBlocks = 12
